@@ -176,7 +176,11 @@ OnPop(mm, e) ==
       theirs == {x.n : x \in Range(e.ready)}
       newOut == {id \in OutputIds(WF) : OutputNode(id) \in mine /\ mm.g.st[OutputNode(id)] = "W"}
       mm1    == [mm EXCEPT !.popped = @ \cup mine, !.g = PopReady(mm.g), !.readyOut = @ \cup newOut]
-  IN  IF mine # theirs THEN V(mm1, "DRIFT", "popped-set-differs", "") ELSE mm1
+      \* a node the independent graph holds ready - every dependency that may block it is decided - but the engine does not
+      \* process, and that hangs on a soft-optional dependency: the engine is making a consumer wait for a soft-optional source
+      softWait == {n \in mine \ theirs : \E ed \in ExpectedDAG(WF).edges : ed[1] = n /\ ed[3] = "opt"}
+      mm2    == IF softWait # {} THEN V(mm1, "C15", "soft-optional-source-delays-its-consumer", CHOOSE n \in softWait : TRUE) ELSE mm1
+  IN  IF mine # theirs THEN V(mm2, "DRIFT", "popped-set-differs", "") ELSE mm2
 
 \* evaluation of the expressions of a node that the engine considers ready
 OnEval(mm, e) ==
